@@ -104,18 +104,21 @@ def _check_render(res, st, s, case_base):
                 res.violation("C13|formula_to_%s|inverse" % fmt, "undoing the %s presentation of %r (%r) gives %r, not the input" % (fmt, s, got, back), case, back, want)
 
 
-def _phase_idx_model(s, table):
+DEFAULTS = (0, 7, None)  # default_phase_idx: None means "refuse (ValueError) when no phase suffix is found"
+
+
+def _phase_idx_model(s, table, dflt=0):
     if table is None:
         table = ("(s)", "(l)", "(g)")
     if isinstance(table, dict):
         for k, v in table.items():
             if s.endswith(k):
                 return v
-        return 0
-    for i, k in enumerate(table):
-        if s.endswith(k):
-            return i + 1
-    return 0
+    else:
+        for i, k in enumerate(table):
+            if s.endswith(k):
+                return i + 1
+    return "EXC ValueError" if dflt is None else dflt
 
 
 def _ambiguous(s, st, table):
@@ -153,15 +156,17 @@ def _check_substance(res, st, s, case_base):
         res.violation("C13|Substance.from_formula|names-composition", "Substance.from_formula(%r) carries %r, expected %r" % (s, got, exp), dict(case_base, what="substance"), got, exp)
     else:
         res.outcomes["substance-ok"] += 1
-    for tname, table in PHASE_TABLES:
+    for (tname, table), dflt in itertools.product(PHASE_TABLES, DEFAULTS):
         res.states += 1
         res.transitions += 1
         res.evaluations += 1
-        exp_idx = _phase_idx_model(s, table)
+        exp_idx = _phase_idx_model(s, table, dflt)
         if exp_idx:
             res.nontrivial += 1
+        tname = tname if dflt == 0 else "%s,default_phase_idx=%r" % (tname, dflt)
         try:
-            sp = Species.from_formula(s) if table is None else Species.from_formula(s, phases=table)
+            kw = {} if dflt == 0 else dict(default_phase_idx=dflt)
+            sp = Species.from_formula(s, **kw) if table is None else Species.from_formula(s, phases=table, **kw)
             got_idx = sp.phase_idx
             # a phase token of the table that the string ends with but that the derivation wrote as a bracket group
             # (only possible with the 'inner' table) makes the composition ambiguous: compare the index only
@@ -170,10 +175,13 @@ def _check_substance(res, st, s, case_base):
                 got_idx = ("composition/name", sp.composition, sp.latex_name)
         except Exception as e:
             got_idx = "EXC %s" % type(e).__name__
+            if exp_idx == "EXC ValueError" and got_idx == exp_idx:
+                res.outcomes["no-phase-refused"] += 1
+                continue
             if _ambiguous(s, st, table):
                 res.outcomes["ambiguous-token-rejected"] += 1
                 continue  # e.g. the whole formula '(O)' read as a phase token: the statement defines nothing here
-        res.outcomes["phase_idx=%r" % (got_idx,) if isinstance(got_idx, int) else "phase-WRONG"] += 1
+        res.outcomes["phase_idx=%r" % (got_idx,) if isinstance(got_idx, int) else ("phase-WRONG" if got_idx != exp_idx else "no-phase-refused")] += 1
         if got_idx != exp_idx:
             res.violation("C13|Species.from_formula|phase_idx|%s" % tname, "Species.from_formula(%r, phases=%s).phase_idx = %r, its suffix selects %r" % (s, tname, got_idx, exp_idx),
                           dict(case_base, what="species", table=tname), got_idx, exp_idx)
@@ -248,33 +256,45 @@ def _rxn_cases(first):
                             continue  # keep the product space small: at most two non-unit coefficients on 4 terms
                         for order in ("sorted", "reversed"):
                             yield reac, prod, coeffs, order
+                        if nr + np_ <= 3 and coeffs.count(1) >= nr + np_ - 1:
+                            for inact in ("ir", "ip", "both"):
+                                if not (set(INACT[inact][0]) | set(INACT[inact][1])) & (set(reac) | set(prod)):
+                                    yield reac, prod, coeffs, "sorted+" + inact
+
+
+INACT = {"none": ({}, {}), "ir": ({"O2": 2}, {}), "ip": ({}, {"e-": 1, "NO3-": 3}), "both": ({"NO3-": 1}, {"O2": 1})}
 
 
 def _build_rxn(cls, reac, prod, coeffs, order):
+    """order is 'sorted' | 'reversed', optionally followed by '+<inactive variant>'"""
     import chempy
 
+    order, _, inact = order.partition("+")
+    ir, ip = INACT[inact or "none"]
     C = getattr(chempy, cls)
     rc = list(zip(reac, coeffs[: len(reac)]))
     pc = list(zip(prod, coeffs[len(reac):]))
     if order == "sorted":
-        r = C(dict(rc), dict(pc), checks=())
+        r = C(dict(rc), dict(pc), inact_reac=dict(ir), inact_prod=dict(ip), checks=())
         exp_r, exp_p = sorted(rc), sorted(pc)
     else:
         rr, pp = sorted(rc, reverse=True), sorted(pc, reverse=True)
-        r = C(OrderedDict(rr), OrderedDict(pp), checks=())
+        r = C(OrderedDict(rr), OrderedDict(pp), inact_reac=dict(ir), inact_prod=dict(ip), checks=())
         exp_r, exp_p = rr, pp
-    return r, exp_r, exp_p
+    return r, exp_r, exp_p, sorted(ir.items()), sorted(ip.items())
 
 
 def _check_rxn(res, cls, reac, prod, coeffs, order, subst, names):
-    r, exp_r, exp_p = _build_rxn(cls, reac, prod, coeffs, order)
+    r, exp_r, exp_p, exp_ir, exp_ip = _build_rxn(cls, reac, prod, coeffs, order)
     for fmt in FMTS:
         res.states += 1
         res.transitions += len(exp_r) + len(exp_p)
         res.evaluations += 1
         res.nontrivial += 1
         side = lambda terms: " + ".join((("%d " % c) if c != 1 else "") + names[k][fmt] for k, c in terms)
-        exp = "%s %s %s" % (side(exp_r), ARROWS[(fmt, cls)], side(exp_p))
+        # inactive species stay on their own side of the arrow, in a parenthesised group after the active terms
+        grp = lambda terms: (" + ( %s)" % side(terms)) if terms else ""
+        exp = "%s%s %s %s%s" % (side(exp_r), grp(exp_ir), ARROWS[(fmt, cls)], side(exp_p), grp(exp_ip))
         try:
             got = getattr(r, fmt)(subst)
         except Exception as e:
